@@ -666,6 +666,29 @@ func runPlacements(w *harness.W, sess *vxh.Session, c plCase, sample bool) bool 
 				return true
 			}
 			w.Count("sixel_transmissions_matched", int64(len(want)))
+			// a sixel has no delete command: a picture that was dropped or
+			// moved is gone only when the cells it covered were written again
+			var covered [][2]int
+			sess.Con.With(func() {
+				for _, p := range wantPlace {
+					// transmitted in this frame (matched above)
+					sess.Term.CoverWithSixel(p.row, p.col, p.w, p.h)
+				}
+				covered = sess.Term.SixelCovered()
+			})
+			for _, rc := range covered {
+				inside := false
+				for p := range next {
+					if rc[1] >= p.col && rc[1] < p.col+p.w && rc[0] >= p.row && rc[0] < p.row+p.h {
+						inside = true
+					}
+				}
+				if !inside {
+					fail("dropped-image-not-erased", fmt.Sprintf("cell (%d,%d) is still covered by a sixel picture that is no longer placed there: the cells under a dropped or moved picture were not written again", rc[1], rc[0]))
+					return true
+				}
+			}
+			w.Count("cells_still_covered_by_sixels_checked", int64(len(covered)))
 		} else {
 			// learn wire ids from uploads: an image that needs an upload and is placed
 			// in this frame uploads exactly once
